@@ -154,6 +154,7 @@ def canon(ev):
 
 
 def run_conformance(seed=1, n=24):
+    global UNIT
     t0 = time.time()
     res = {"scenarios": 0, "agree": 0, "disagreements": [], "unit_s": UNIT}
     for t, prof, vals in scenarios(seed, n):
@@ -167,9 +168,21 @@ def run_conformance(seed=1, n=24):
             continue            # two timers share a deadline: their order is unspecified
         if out_v[0] in ("deadlock", "horizon"):
             continue
-        ev_r, out_r = run_real(t, prof, vals)
+        ev_v = canon(ev_v)
+        unit0 = UNIT
+        try:
+            for attempt in range(3):
+                # real time is noisy on a loaded machine: a disagreement must survive two retries with a
+                # 4x and 16x coarser time unit before it is reported
+                ev_r, out_r = run_real(t, prof, vals)
+                ev_r = canon(ev_r)
+                if ev_v == ev_r and out_v == out_r:
+                    break
+                res["retries"] = res.get("retries", 0) + 1
+                UNIT = UNIT * 4
+        finally:
+            UNIT = unit0
         res["scenarios"] += 1
-        ev_v, ev_r = canon(ev_v), canon(ev_r)
         if ev_v == ev_r and out_v == out_r:
             res["agree"] += 1
         else:
